@@ -19,7 +19,7 @@ RULE = ("programs over the native gate set with exactly one seeded reference fau
 ASSUMPTIONS = ["latest admissible rejection stage per fault: parse for literal faults, fill_in_let for let-valued/overridden ones, "
                "expand_macros for faults arising by macro substitution, run otherwise",
                "zero/negative strides and negative loop counts are not in the statement and not generated"]
-TIERS = {"quick": {"shards": 8, "budget_s": 160}, "thorough": {"shards": 16, "budget_s": 360}}
+TIERS = {"quick": {"shards": 8, "budget_s": 320}, "thorough": {"shards": 16, "budget_s": 360}}
 REQUIRE = {"route:builder": 500, "route:parser-let-map": 500, "route:parser-let": 500, "internal-context-names-observed": 1, "faulty-cases": 2000, "twin-cases": 2000, "twin-accepted": 2000, "precedence-probes": 1}
 
 STAGES = ["parse", "fill_in_let", "expand_macros", "run"]
